@@ -145,10 +145,15 @@ impl BlobTree {
         std::fs::create_dir_all(&blobs_folder)?;
         fsync_directory(&blobs_folder)?;
 
-        let blob_file_id_to_continue_with = index
-            .current_version()
+        let version = index.current_version();
+
+        // NOTE: Also skip IDs that still have GC statistics recorded (blob files dropped by
+        // drop_range or FIFO leave their entry behind), otherwise a new blob file that reuses
+        // such an ID would inherit the stale entry and could be dropped while still referenced
+        let blob_file_id_to_continue_with = version
             .blob_files
             .list_ids()
+            .chain(version.gc_stats().keys())
             .max()
             .map(|x| x + 1)
             .unwrap_or_default();
